@@ -2816,11 +2816,20 @@ impl<I: SignedInteger> FromBitStreamUsing for Residuals<I> {
             let partition_order = reader.read::<4, u32>()?;
             let partition_count = 1 << partition_order;
 
+            // the partitions must cover the block exactly: the block size
+            // is a multiple of the partition count and the first partition,
+            // which omits the warm-up samples, is not empty
+            // (the same layout the streaming decoder requires)
+            if block_size % partition_count != 0 {
+                return Err(Error::InvalidPartitionOrder);
+            }
+
             (0..partition_count)
                 .map(|p| {
                     reader.parse_using(
                         (block_size / partition_count)
                             .checked_sub(if p == 0 { predictor_order } else { 0 })
+                            .filter(|len| *len > 0)
                             .ok_or(Error::InvalidPartitionOrder)?,
                     )
                 })
